@@ -330,7 +330,13 @@ def handleMD (a : List String) : String :=
       let dfltOk := match rest with
         | pkg :: _ => (pkgs.find? (·.name == pkg)).map (fun P => P.dflt == (C.inst.t, C.inst.rf, C.inst.rp)) == some true
         | _ => false
-      if (ctor == "reg" || ctor == "new") && !dfltOk then "bad-params" else
+      if (ctor == "reg" || ctor == "new" || ctor == "regsize") && !dfltOk then "bad-params" else
+      if ctor == "regsize" then
+        -- registry metadata: `Size()` of the id = `Size()` of the hasher = length of the model's `Sum(nil)` on a fresh hasher
+        match toks, (mdStep C.md C.md.iv (.sum [])).2 with
+        | [], .bytes v => let n := toHex v.length; s!"{n} {n} {n}"
+        | _, _ => "bad-op"
+      else
       match ctor.splitOn ":" with
       | [c, iv] =>
         -- generic constructor `hash.NewMerkleDamgardHasher(perm, iv)`; `genm` = the caller overwrites iv afterwards
